@@ -37,8 +37,8 @@ func init() {
 	props["C04"] = &propCfg{Engine: "E1", ColdStart: true, Level: "exploration", QuickRuns: 1600, ThoroughMax: 4_000_000, RealStub: e1RealStub,
 		Rule:        "one run = a history: 0-3 unrelated warm-up checks, then a generated failing program (rejection-heavy generators, state machines) run twice with the same seed in different bubbles, Example(seed) twice, restart over the same directory (fail-file replay), the unpruned recording through MakeFuzz, and (sampled) the same tape in a fresh OS process (cold caches); non-trivial = the main check failed (so record/prune/replay happened); distinct by hash(program text, seed, checks, shrinktime)",
 		SimTimeNote: "sum of fake-clock advance inside synctest bubbles"}
-	props["C02"] = &propCfg{Engine: "E1", Level: "exploration", QuickRuns: 3112, ThoroughMax: 4_000_000, RealStub: e1RealStub,
-		Rule:        "the matrix (16 failure kinds (incl. Error()/Errorf(\"\") with an empty message) x 8 callback contexts x 8 positions in the run (incl. 'signal, then a Skip raised from a cleanup'), minus impossible combinations = 778 cells) is enumerated over run indices (three of every four run indices walk through the 778 cells in order, so a quick run of 3112 indices visits every cell 3 times; the fourth index runs a generated program - non-fatal signals followed by Custom draws, state machines, cleanups, skips - under the same conservation oracle); seed, checks, steps, clock policy and k are sampled around each cell; non-trivial = the signal actually fired; distinct by hash(cell, k, seed, checks)",
+	props["C02"] = &propCfg{Engine: "E1", Level: "exploration", QuickRuns: 3560, ThoroughMax: 4_000_000, RealStub: e1RealStub,
+		Rule:        "the matrix (16 failure kinds (incl. Error()/Errorf(\"\") with an empty message) x 8 callback contexts x 9 positions in the run (incl. 'signal, then a Skip raised from a cleanup' and 'only in the first replay of an existing fail file'), minus impossible combinations = 890 cells) is enumerated over run indices (three of every four run indices walk through the 890 cells in order, so a quick run of 3560 indices visits every cell 3 times; the fourth index runs a generated program - non-fatal signals followed by Custom draws, state machines, cleanups, skips - under the same conservation oracle); seed, checks, steps, clock policy and k are sampled around each cell; non-trivial = the signal actually fired; distinct by hash(cell, k, seed, checks)",
 		SimTimeNote: "sum of fake-clock advance inside synctest bubbles"}
 	props["C05"] = &propCfg{Engine: "E1", Level: "exploration", QuickRuns: 1600, ThoroughMax: 4_000_000, RealStub: e1RealStub,
 		Rule:        "one run = one tape: a generated program (35%: a template - collections of filtered elements with thresholds on sum and length at distinct sites) with 2-4 distinct failure sites (fatal at distinct call stacks, panics, runtime errors, the non-fatal site) and overlapping conditions, run once with a FROZEN clock (minimization must terminate by itself) and 1-3 more times with the clock cut (CUT(k,delta) with k uniform over the frozen run's history, or DRIP); non-trivial = the frozen run accepted at least one minimization step; distinct by hash(program text, rapid seed, checks)",
